@@ -14,14 +14,14 @@ MAX_POOL = [4, 1, 2, 3, 5, 6, 8]
 
 
 def q6(ip, fp):
-    return (64 * ip + (64 * fp + 500) // 1000) & 0xffff
+    return (64 * ip + (64 * fp + 500) // 1000) & 0xffffffff
 
 
 def calc_timeout(at_ip, at_fp, arf_ip, arf_fp, r):
     A, F = q6(at_ip, at_fp), q6(arf_ip, arf_fp)
-    r1 = (((F - 64) * r + 128) >> 8) & 0xffffffff
-    r2 = ((((r1 + 64) & 0xffffffff) * A & 0xffffffff) + 32 & 0xffffffff) >> 6
-    return ((1000 * r2 + 32) >> 6) & 0xffffffff
+    r1 = (((F - 64) & 0xffffffff) * r + 128) >> 8
+    r2 = ((r1 + 64) * A + 32) >> 6
+    return min((1000 * r2 + 32) >> 6, 0xffffffff)
 
 
 def line_of(case):
@@ -37,12 +37,20 @@ def hexb(bs):
     return "".join("%02x" % b for b in bs) if bs else "-"
 
 
-def rand_cfg(r, nstart=1, small=True):
+def rand_cfg(r, nstart=1, small=True, refused=False):
     at = r.choice(AT_POOL[:12] if small else AT_POOL)
     arf = r.choice(ARF_POOL[:10] if small else ARF_POOL)
-    if r.random() < 0.35:
+    mx = r.choice(MAX_POOL)
+    x = r.random()
+    if x < 0.30:
         at, arf = (2, 0), (1, 500)
-    return (at[0], at[1], arf[0], arf[1], r.choice(MAX_POOL), nstart)
+    elif x < 0.40 and refused:
+        # values the setters refuse: whatever the library then reports (its defaults) is in force;
+        # only used where the case does not depend on knowing MAX_RETRANSMIT (one message)
+        at = r.choice([(0, 0), (0, 500), (3, 1000), (2, 65535), at])
+        arf = r.choice([(0, 999), (1, 1000), (0, 0), arf])
+        mx = r.choice([0, 0, mx])
+    return (at[0], at[1], arf[0], arf[1], mx, nstart)
 
 
 def rand_msg(r, sess, mid=None, request=None):
@@ -58,6 +66,10 @@ def rand_msg(r, sess, mid=None, request=None):
     pay = hexb([r.randrange(256) for _ in range(pl)]) if pl <= 16 else "@%d,%d" % (pl, r.randrange(100))
     rb = r.choice(R_BOUNDS) if r.random() < 0.5 else r.randrange(256)
     return ["S", sess, mid, code, tok, pay, rb]
+
+
+def eff_max(cfg):
+    return cfg[4] if cfg[4] > 0 else 4
 
 
 def drain(n, k=0):
@@ -83,10 +95,10 @@ def ack_event(r, msg, kind=None):
 # ---------------------------------------------------------------- single message, schedule
 def gen_schedule_case(r, cfg=None, late=None):
     """one message, nobody answers; punctual / late / early driver until long after the NACK"""
-    cfg = cfg or rand_cfg(r, small=r.random() < 0.8)
+    cfg = cfg or rand_cfg(r, small=r.random() < 0.8, refused=True)
     msg = rand_msg(r, 0)
     ev = [msg]
-    n = cfg[4] + 3
+    n = eff_max(cfg) + 3
     if late is None:
         late = r.choice(["punctual", "punctual", "late", "early", "mixed"])
     for i in range(n):
@@ -112,7 +124,7 @@ def gen_drop_case(cfg, rbyte, drops, delay, kind, dup=False):
     through (if any) is the one to the first transmission j with 2j and 2j+1 both kept; it
     arrives `delay` ticks after that transmission.  dup: the answer is delivered twice."""
     msg = ["S", 0, 4660, 1 if kind != "K" else 69, "a1b2", "-", rbyte]
-    mx = cfg[4]
+    mx = eff_max(cfg)
     ev = [msg]
     j_ok = None
     for j in range(mx + 1):
@@ -153,7 +165,9 @@ def no_empty_ack_for_request(ev, sent):
 
 
 # ---------------------------------------------------------------- several messages and sessions
-def gen_multi_case(r, big=False):
+def gen_multi_case(r, big=False, with_disconnect=None):
+    if with_disconnect is None:
+        with_disconnect = r.random() < 0.5
     ns = r.choice([1, 1, 2, 3]) if not big else r.choice([2, 3, 4, 6])
     cfgs = [rand_cfg(r, nstart=1000) for _ in range(ns)]
     ev = []
@@ -175,8 +189,11 @@ def gen_multi_case(r, big=False):
             ev.append(m)
         elif x < 0.45:
             ev += [["T"], ["W", r.choice([0, 0, 0, 1, -1, 30])]]
-        elif x < 0.55:
+        elif x < 0.50:
             ev.append(["T"])
+        elif x < 0.55:
+            # the library's own loop: prepare, sleep (epoll_wait), prepare
+            ev.append(["I", r.choice([0, 0, 0, 1, 100, 1999, 2000, 2001, 5000, 100000, 4294967295])])
         elif x < 0.72:
             ev.append(["A", r.choice([0, 1, 10, 500, 1000, 1999, 2000, 2001, 3000, 7000, 60000])])
         elif x < 0.90 and sent:
@@ -194,12 +211,22 @@ def gen_multi_case(r, big=False):
                 ev.append(e)
             if r.random() < 0.2:
                 ev.append(list(ev[-1]))             # duplicate
-        elif x < 0.94:
+        elif x < 0.93:
             ev.append(["Q"])
+        elif x < 0.945 and ns > 1 and sent and with_disconnect:
+            # the application (or a socket error) disconnects one session while others are pending
+            ev.append(["D", r.choice(sent)[1] if r.random() < 0.8 else r.randrange(ns), r.choice([1, 1, 3, 5, 6])])
+        elif x < 0.96 and sent:
+            # a NON response from the peer: token of some message (implicit acknowledgement) or a
+            # foreign token; its mid is from the peer's id space and sometimes collides with ours
+            m = r.choice(sent)
+            tok = m[4] if r.random() < 0.6 else r.choice(["-", "0badc0de", m[4][:-2] or "-"])
+            mid = r.choice(sent)[2] if r.random() < 0.6 else r.randrange(65536)
+            ev.append(["N", m[1] if r.random() < 0.85 else r.randrange(ns), mid, r.choice([69, 68, 132]), tok])
         else:
             ev.append(["R" if r.random() < 0.5 else "K", r.randrange(ns), r.randrange(65536)])
         no_empty_ack_for_request(ev, sent)
-    mx = max(c[4] for c in cfgs)
+    mx = max(eff_max(c) for c in cfgs)
     ev += drain(r.choice([1, 2, mx + 3, (mx + 2) * max(1, len(sent))]))
     ev += [["T"], ["Q"]]
     return {"cfgs": cfgs, "ev": ev, "kind": "multi-big" if big else "multi"}
@@ -211,7 +238,7 @@ def gen_nstart1_case(r):
     the previous one ended (answer injected, or drained past the give-up)"""
     ns = r.choice([1, 2, 3])
     cfgs = [rand_cfg(r, nstart=1) for _ in range(ns)]
-    mx = max(c[4] for c in cfgs)
+    mx = max(eff_max(c) for c in cfgs)
     ev = []
     busy = [None] * ns
     mid = [r.randrange(65536) for _ in range(ns)]
@@ -236,6 +263,147 @@ def gen_nstart1_case(r):
     return {"cfgs": cfgs, "ev": ev, "kind": "nstart1"}
 
 
+# ---------------------------------------------------------------- waiting for an NSTART slot
+def gen_held_case(r):
+    """more Confirmables than NSTART slots: the surplus waits in the session's delay queue - its
+    timeout is drawn there (coap_session_delay_pdu) - and goes out when an ACK, an RST, a give-up or
+    a cancel frees a slot; from then on it must behave like any other message.  (Which message
+    gets the slot, and when, is C08's property.)"""
+    ns = r.choice([1, 1, 2])
+    cfgs = []
+    for _ in range(ns):
+        c = list(rand_cfg(r, nstart=r.choice([1, 1, 1, 2, 3])))
+        c[4] = r.choice([1, 2, 2, 3, 4])
+        cfgs.append(tuple(c))
+    ev = []
+    sent = []
+    mid = [r.randrange(60000) for _ in range(ns)]
+    toks = set()
+    n_msgs = r.randrange(2, 7)
+    for i in range(n_msgs):
+        s = r.randrange(ns)
+        m = rand_msg(r, s, mid[s])
+        while m[4] in toks:                 # distinct tokens (see rt_non in Retransmit.v)
+            m = rand_msg(r, s, mid[s])
+        toks.add(m[4])
+        mid[s] += 1
+        sent.append(m)
+        ev.append(m)
+        if r.random() < 0.15:
+            for _ in range(r.choice([1, 2])):   # the same mid again while it waits / is pending
+                d = list(m)
+                d[4] = "%08x" % r.randrange(1 << 32)
+                while d[4] in toks:
+                    d[4] = "%08x" % r.randrange(1 << 32)
+                toks.add(d[4])
+                sent.append(d)
+                ev.append(d)
+        x = r.random()
+        if x < 0.25:
+            ev.append(["A", r.choice([0, 1, 300, 1500])])
+        elif x < 0.4:
+            ev += [["T"], ["W", 0]]
+        elif x < 0.5:
+            ev.append(["Q"])
+    for _ in range(r.randrange(0, 8)):
+        x = r.random()
+        m = r.choice(sent)
+        if x < 0.35:
+            ev.append(ack_event(r, m))
+            no_empty_ack_for_request(ev, sent)
+        elif x < 0.6:
+            ev += [["T"], ["W", r.choice([0, 0, 7])]]
+        elif x < 0.7:
+            ev.append(["I", r.choice([0, 0, 1000])])
+        elif x < 0.8:
+            ev.append(["N", m[1], r.randrange(65536), 69, m[4]])
+        elif x < 0.86:
+            ev.append(["D", m[1], r.choice([1, 3])])
+        elif x < 0.93:
+            ev.append(["Q"])
+        else:
+            ev.append(["A", r.choice([1, 500, 2000, 9000])])
+    mx = max(eff_max(c) for c in cfgs)
+    ev += drain((mx + 2) * len(sent) + 2)
+    ev += [["T"], ["Q"]]
+    return {"cfgs": cfgs, "ev": ev, "kind": "held"}
+
+
+# ---------------------------------------------------------------- the library's own I/O loop
+def gen_ioloop_case(r):
+    """messages driven by coap_io_process() itself (epoll_wait interposed: it sleeps exactly as long
+    as it is told): COAP_IO_WAIT = the punctual driver; finite timeouts and NO_WAIT = early ticks"""
+    ns = r.choice([1, 1, 2])
+    cfgs = [rand_cfg(r, nstart=1000) for _ in range(ns)]
+    ev = []
+    sent = []
+    mid = r.randrange(60000)
+    mode = r.choice(["wait", "wait", "mixed", "short"])
+    for _ in range(r.randrange(1, 4)):
+        s = r.randrange(ns)
+        m = rand_msg(r, s, mid)
+        mid += 1
+        sent.append(m)
+        ev.append(m)
+        if r.random() < 0.7:
+            ev.append(["Q"])            # (shows the oracle the message's deadline, i.e. its T)
+        for _ in range(r.randrange(0, 4)):
+            if mode == "wait":
+                ev.append(["I", 0])
+            elif mode == "short":
+                ev.append(["I", r.choice([1, 50, 500, 1500, 4294967295])])
+            else:
+                ev.append(["I", r.choice([0, 0, 700, 2500, 4294967295, 2147483648, 4000000000])])
+        if r.random() < 0.3 and sent:
+            ev.append(ack_event(r, r.choice(sent)))
+            no_empty_ack_for_request(ev, sent)
+    mx = max(eff_max(c) for c in cfgs)
+    for _ in range((mx + 2) * len(sent) + 1):
+        ev.append(["I", 0])
+    ev += [["Q"]]
+    return {"cfgs": cfgs, "ev": ev, "kind": "ioloop-" + mode}
+
+
+# ---------------------------------------------------------------- cancel paths, several sessions
+def gen_cancel_case(r):
+    """2-4 sessions with interleaved deadlines in one queue; one session's entries are removed
+    through a cancel path (NON response with the token / coap_session_disconnected) while the
+    others are pending: their deadlines, retransmissions and the reported waits must not move"""
+    ns = r.choice([2, 2, 3, 4])
+    cfgs = [rand_cfg(r, nstart=1000) for _ in range(ns)]
+    ev = []
+    sent = []
+    mid = 100
+    for _ in range(r.randrange(2, 7)):
+        s = r.randrange(ns)
+        m = rand_msg(r, s, mid, request=True)
+        if r.random() < 0.3 and sent:
+            m[4] = r.choice(sent)[4]           # same token again (another request of that exchange)
+        mid += 1
+        sent.append(m)
+        ev.append(m)
+        ev.append(["A", r.choice([0, 1, 100, 500, 700, 1500])])
+        if r.random() < 0.3:
+            ev += [["T"], ["W", 0]]
+    ev.append(["Q"])
+    victim = r.choice(sent)
+    x = r.random()
+    if x < 0.4:
+        ev.append(["N", victim[1], r.choice([victim[2], r.randrange(65536)]), 69, victim[4]])
+    elif x < 0.7:
+        ev.append(["D", victim[1], r.choice([1, 3, 5])])
+    else:
+        ev.append(["X", victim[1], victim[2]])      # coap_delete_node on the linked node
+    ev.append(["Q"])
+    if r.random() < 0.4:
+        v2 = r.choice(sent)
+        ev += [["T"], ["W", 0], ["N", v2[1], r.randrange(65536), 69, v2[4]], ["Q"]]
+    mx = max(eff_max(c) for c in cfgs)
+    ev += drain(r.choice([2, mx + 3, (mx + 2) * len(sent)]))
+    ev += [["T"], ["Q"]]
+    return {"cfgs": cfgs, "ev": ev, "kind": "cancel"}
+
+
 # ---------------------------------------------------------------- separate response
 def gen_separate_case(r):
     """a request answered by an EMPTY ACK (the response will come separately): the library starts
@@ -243,7 +411,7 @@ def gen_separate_case(r):
     the waits are compared one-sidedly"""
     cfg = rand_cfg(r)
     m = rand_msg(r, 0, request=True)
-    ev = [m] + drain(r.randrange(0, cfg[4] + 1))
+    ev = [m] + drain(r.randrange(0, eff_max(cfg) + 1))
     ev += [["T"], ["A", r.choice([0, 1, 500, 1999])], ["K", 0, m[2]]]
     for _ in range(r.randrange(1, 5)):
         ev += [["A", r.choice([1, 2000, 10000, 100000])], ["T"]]
@@ -283,8 +451,8 @@ def gen_qops(r, with_adjust=False):
 
 
 def settings_grid(tier):
-    ats = AT_POOL + [(1023, 0), (1023, 992), (1023, 993), (1024, 0), (2048, 500), (65535, 999)]
-    arfs = ARF_POOL + [(1023, 999), (1024, 0), (4, 0), (65535, 0)]
+    ats = AT_POOL + [(1023, 0), (1023, 992), (1023, 993), (1024, 0), (2048, 500), (65535, 999), (4294, 967), (4295, 0)]
+    arfs = ARF_POOL + [(1023, 999), (1024, 0), (4, 0), (65535, 0), (65535, 999), (66, 0)]
     if tier != "quick":
         ats += [(i, f) for i in (1, 2, 3, 4, 9, 100, 511, 512, 1000) for f in (0, 15, 16, 124, 125, 126, 499, 500, 992, 993)]
         arfs += [(i, f) for i in (1, 2, 3, 4, 8) for f in (0, 7, 8, 15, 16, 125, 500, 750, 992, 993, 999)]
